@@ -35,12 +35,13 @@ type gcase struct {
 	Ru []int `json:"ru"`
 	Rd []int `json:"rd"`
 	// datauri
-	Kind    string `json:"kind"`
-	Base    []int  `json:"base"`
-	Params  []int  `json:"params"`
-	Enc     string `json:"enc"`
-	Payload []int  `json:"payload"`
-	Mt      []int  `json:"mt"`
+	Kind    string  `json:"kind"`
+	Base    []int   `json:"base"`
+	Params  []int   `json:"params"`
+	Enc     string  `json:"enc"`
+	Payload []int   `json:"payload"`
+	Pay     [][]int `json:"pay"`
+	Mt      []int   `json:"mt"`
 	// media
 	K [][]int `json:"k"`
 	V [][]int `json:"v"`
@@ -88,6 +89,15 @@ func eqSeqs(a, b [][]int) bool {
 		}
 	}
 	return true
+}
+
+func inSeqs(a []int, set [][]int) bool {
+	for _, b := range set {
+		if eqInts(a, b) {
+			return true
+		}
+	}
+	return false
 }
 
 func rawInts(r json.RawMessage) []int {
@@ -324,8 +334,8 @@ func runCase(w *tr.Writer, fam string, c *gcase, sum *summary) (bad [][2]string,
 			switch {
 			case e["err"] != "nil":
 				add("DataURI", fmt.Sprintf("error %v on a well-formed data URI", e["err"]))
-			case !eqInts(ints(e, "data"), c.Payload):
-				add("DataURI", fmt.Sprintf("payload %v want %v", e["data"], c.Payload))
+			case !inSeqs(ints(e, "data"), c.Pay):
+				add("DataURI", fmt.Sprintf("payload %v want one of %v", e["data"], c.Pay))
 			case !eqInts(mt, c.Mt) && !eqInts(mt, append(append([]int{}, c.Mt...), c.Params...)):
 				add("DataURI", fmt.Sprintf("media type %q want %q", toBytes(mt), toBytes(c.Mt)))
 			}
